@@ -62,6 +62,7 @@ typedef struct carquet_page_writer {
 
     int64_t num_values;
     int64_t num_nulls;
+    int64_t num_booleans;  /* BOOLEAN values bit-packed into values_buffer so far */
 
     /* Options */
     bool write_crc;          /* Compute and write CRC32 for pages */
@@ -127,6 +128,7 @@ void carquet_page_writer_reset(carquet_page_writer_t* writer) {
     carquet_buffer_clear(&writer->page_buffer);
     writer->num_values = 0;
     writer->num_nulls = 0;
+    writer->num_booleans = 0;
     writer->has_min_max = false;
 }
 
@@ -288,6 +290,31 @@ static void update_statistics_double(carquet_page_writer_t* writer,
  * ============================================================================
  */
 
+/* PLAIN booleans are bit-packed over the whole page: a batch continues in the
+ * partly filled last byte left by the previous batch; the rest starts on a byte
+ * boundary and goes through the regular encoder. */
+static carquet_status_t append_booleans(carquet_page_writer_t* writer,
+                                         const uint8_t* bools, int64_t count) {
+    int64_t i = 0;
+    while (i < count && (writer->num_booleans & 7) != 0) {
+        if (bools[i]) {
+            writer->values_buffer.data[writer->values_buffer.size - 1] |=
+                (uint8_t)(1u << (writer->num_booleans & 7));
+        }
+        writer->num_booleans++;
+        i++;
+    }
+    if (i == count) {
+        return CARQUET_OK;
+    }
+    carquet_status_t status = carquet_encode_plain_boolean(bools + i, count - i,
+                                                           &writer->values_buffer);
+    if (status == CARQUET_OK) {
+        writer->num_booleans += count - i;
+    }
+    return status;
+}
+
 carquet_status_t carquet_page_writer_add_values(
     carquet_page_writer_t* writer,
     const void* values,
@@ -344,8 +371,7 @@ carquet_status_t carquet_page_writer_add_values(
     switch (writer->type) {
         case CARQUET_PHYSICAL_BOOLEAN: {
             const uint8_t* bools = (const uint8_t*)values;
-            status = carquet_encode_plain_boolean(bools, num_non_null,
-                                                   &writer->values_buffer);
+            status = append_booleans(writer, bools, num_non_null);
             break;
         }
 
